@@ -1,6 +1,7 @@
 package sim
 
 import (
+	"os"
 	"xsim/simkv"
 
 	"bytes"
@@ -233,6 +234,13 @@ func ExecCoop(plan *CoopPlan, rc *RunCtx) *Violation {
 	}
 	if dl != "" {
 		return r.viol("deadlock", "%s; requests %v; trace %s", dl, reqKinds(prep), coop.Trace())
+	}
+	for _, race := range coop.Races {
+		rc.St.Probes["coop-map-race-candidates"]++
+		rc.Log.Add("map race candidate: %s", race)
+		if os.Getenv("XSIM_RACES") != "" {
+			fmt.Fprintf(os.Stderr, "RACE-CANDIDATE %s\n", race)
+		}
 	}
 	rc.RunBG()
 	rc.Log.Add("concurrent outcomes %v switches %d", outcomes, coop.Switches)
